@@ -2,11 +2,13 @@
    Only ExtrOcamlBasic (bool, option, unit, prod, list, sumbool, sumor mapped to OCaml's);
    nat, string, ascii stay the extracted inductives.  No Extract Constant. *)
 From Coq Require Extraction ExtrOcamlBasic.
-From PS Require Import Base Str Bag RegAccess Sim.
+From PS Require Import Base Str Bag RegAccess Sim Diag.
 Extraction Language OCaml.
 Set Extraction Optimize.
 Extraction "../ocaml/model.ml"
   Str.lower Str.upper Str.ic_eqb Str.ic_ltb Str.ic_contains Str.ic_hash_key
   Bag.bag_eqb Bag.bag_len Bag.bag_repr Bag.canon_record Bag.bag_items
   RegAccess.build_queue RegAccess.can_access RegAccess.dequeue RegAccess.qb_append
-  Sim.simulate_default Sim.run_cycle Sim.cycle_bound Sim.build_acc_plan.
+  Sim.simulate_default Sim.run_cycle Sim.cycle_bound Sim.build_acc_plan
+  Diag.wf_procb Diag.C01_order_checkb Diag.C01_replay_checkb Diag.C02_checkb Diag.C03_checkb Diag.C04_checkb
+  Diag.C05_checkb Diag.C06_checkb Diag.C07_checkb Diag.C08_checkb.
